@@ -602,8 +602,8 @@ static char const* MakeSymbolic(
     if (!pSymbolPrefix) {
         if (!isdigit(*pBuffer)) {
             strmaxprep(pBuffer, "0", BufferSize);
-            strmaxcat(pBuffer, "h", BufferSize);
         }
+        strmaxcat(pBuffer, "h", BufferSize);
         return pBuffer;
     }
 
